@@ -5,7 +5,7 @@ package main
 // wrapping, ranges, comprehensions, env expressions, numbers with units, string interpolation,
 // command-style calls) and a few declarations.
 //
-// Not generated, because the unchanged tree is known to fail on them (known_findings.d/C17.txt,
+// Not generated, because the unchanged tree is known to fail on them (known_findings.txt,
 // each explored deterministically through the corpus files that contain them): c"..." / py"..."
 // literals (R1), matrix literals (R3), a command-style call
 // directly followed by a blank and "}" (R4), a label directly before "}" (R6).
